@@ -49,7 +49,6 @@ class Abs32Imm20Relocation(Relocation):
     token = RiscvToken
 
     def apply(self, sym_value, data, reloc_value):
-        assert sym_value % 2 == 0
         bv = BitView(data, 0, 4)
         if sym_value & 0x800 == 0:
             bv[12:32] = (sym_value >> 12) & 0xFFFFF
@@ -64,7 +63,6 @@ class RelImm20Relocation(Relocation):
     token = RiscvToken
 
     def apply(self, sym_value, data, reloc_value):
-        assert sym_value % 2 == 0
         assert reloc_value % 2 == 0
         offset = sym_value - reloc_value
         bv = BitView(data, 0, 4)
@@ -83,7 +81,6 @@ class Abs32Imm12Relocation(Relocation):
     field = "imm"
 
     def calc(self, sym_value, reloc_value):
-        assert sym_value % 2 == 0
         return sym_value & 0xFFF
 
     def apply(self, sym_value, data, reloc_value):
@@ -105,7 +102,6 @@ class RelImm12Relocation(Relocation):
     field = "imm"
 
     def calc(self, sym_value, reloc_value):
-        assert sym_value % 2 == 0
         assert reloc_value % 2 == 0
         offset = sym_value - reloc_value + 4
         return offset & 0xFFF
